@@ -304,9 +304,11 @@ func TestVerifC11Trie(t *testing.T) {
 	// generated key sets ---------------------------------------------------------------------
 	cases := 260
 	maxBig := 3000
+	bigEvery := 40
 	if VThorough() {
-		cases = 1500
-		maxBig = 120000
+		cases = 800
+		maxBig = 60000 // a geosite-scale suffix set is ~50 000 patterns = ~100 000 keys; five such tries
+		bigEvery = 160
 	}
 	for n := 0; n < cases; n++ {
 		alphaTag, alpha := "d", c11DomAlpha
@@ -321,7 +323,7 @@ func TestVerifC11Trie(t *testing.T) {
 		case n%10 < 8:
 			size = r.Range(9, 120)
 			stats.Inc("trie.size.9-120")
-		case n%10 < 9 || n%40 != 9:
+		case n%10 < 9 || n%bigEvery != 9:
 			size = r.Range(121, 1500)
 			stats.Inc("trie.size.121-1500")
 		default:
